@@ -542,6 +542,33 @@ def r_sentence_loop(repo, rep, R, table_info):
     return {'paths': len(entered)}
 
 
+def r_failed_placeholder(repo, rep, R):
+    """the failure placeholder is one fresh single-leaf tree (word constant, plain atomic category) with score -inf:
+    every printer handles a leaf, none needs a rule label for it."""
+    mod, run = _run_fn(repo)
+    failed = [s_ for s_ in run.body if isinstance(s_, ast.FunctionDef) and s_.name == 'failed']
+    w = '%s:%s run.failed' % (REL, failed[0].lineno if failed else run.lineno)
+    ok = False
+    detail = 'failed() not found'
+    if failed and not failed[0].args.args:
+        ps_ = SymExec(failed[0]).run()
+        if len(ps_) == 1 and ps_[0][0].ret is not None:
+            r = ps_[0][0].ret
+            detail = show(r)[:120]
+            if r[0] == 'list' and len(r[1]) == 1 and r[1][0][0] == 'call' and r[1][0][1] == N('ScoredTree'):
+                kw_ = dict(r[1][0][3])
+                pos = list(r[1][0][2])
+                tr = kw_.get('tree', pos[0] if pos else None)
+                if tr is not None and tr[0] == 'call' and tr[1] == A(N('Tree'), 'make_terminal') and len(tr[2]) == 2 and not tr[3]:
+                    wd, ct = tr[2]
+                    ok = wd[0] == 'const' and isinstance(wd[1], str) and ct[0] == 'call' and ct[1] == A(N('Category'), 'parse') and \
+                        ct[2] and ct[2][0][0] == 'const' and not any(ch in ct[2][0][1] for ch in '/\\|[]()')
+    elif failed:
+        detail = 'failed() takes arguments %s' % [a.arg for a in failed[0].args.args]
+    rep.check(ok, R, w, 'run:failed:single-leaf', 'the failure placeholder is a single leaf with a constant word and a plain atomic category (%s)' % detail,
+              'the failure placeholder is not a single constant leaf: %s -- printers would need labels / token fields it does not have' % detail)
+
+
 def r_tree_factories(repo, rep, R):
     """Tree.make_terminal / make_unary / make_binary each return a NEW Tree built from exactly their own arguments, and
     Tree.__init__ stores them unchanged; the class keeps no shared state."""
